@@ -5,7 +5,7 @@
    [min(wanted, available), available]. slice() shows ONLY the granted octets
    and bytes()/advance() beyond the grant panic, so any access outside what a
    preceding request granted is a Panic of the model. Definitions only. *)
-Require Import BV.Model.Base BV.Model.SrcB.
+Require Import BV.Model.Base BV.Model.SrcB BV.Model.Length BV.Model.Tag.
 
 Record raw := mkRaw { rdata : list N; rgr : N; rlim : option N; ridx : N }.
 Definition policy := N -> N -> N -> N.      (* request index, wanted, available -> grant *)
@@ -101,6 +101,63 @@ Definition get_limit_A : A (option N) := fun r => (Ok (rlim r), r).
 Definition peek_B (i : N) : M N := fun s =>
   match skipN i (visible s) with b :: _ => (Ok b, s) | [] => (CErr, s) end.
 
+(* LimitedSource::exhausted: limit 0 / limit left / no limit: request(1) == 0 *)
+Definition exhausted_A (pol : policy) : A unit := fun r =>
+  match rlim r with
+  | Some 0 => (Ok tt, r)
+  | Some _ => (CErr, r)
+  | None => bindA (requestA pol 1) (fun g => if g <? 1 then retA tt else cerrA) r
+  end.
+
+(* Tag::take_from_if as the code does it: request(1) == 0 -> absent; slice()[0]; for a high tag number
+   peek further octets (request(i+1) <= i -> error; slice()[i]; more than four octets -> error); compare with
+   the expected tag; advance over the identifier only on a match *)
+Definition tagif_fin (e : N * N * N * N) (c : bool) (t : N * N * N * N) (n : N) : A (option bool) :=
+  let '(a0, a1, a2, a3) := t in let '(b0, b1, b2, b3) := e in
+  if (a0 =? b0) && (a1 =? b1) && (a2 =? b2) && (a3 =? b3)
+  then bindA (advanceA n) (fun _ => retA (Some c)) else retA None.
+Definition tagif_A (pol : policy) (e : N * N * N * N) : A (option bool) :=
+  bindA (requestA pol 1) (fun g =>
+  if g <? 1 then retA None else
+  bindA (indexA 0) (fun b =>
+  let d0 := N.land b 223 in let c := negb (N.land b 32 =? 0) in
+  if N.land d0 31 =? 31 then
+    bindA (peek_A pol 1) (fun d1 =>
+    if N.land d1 128 =? 0 then tagif_fin e c (d0,d1,0,0) 2 else
+    bindA (peek_A pol 2) (fun d2 =>
+    if N.land d2 128 =? 0 then tagif_fin e c (d0,d1,d2,0) 3 else
+    bindA (peek_A pol 3) (fun d3 =>
+    if N.land d3 128 =? 0 then tagif_fin e c (d0,d1,d2,d3) 4 else cerrA)))
+  else tagif_fin e c (d0,0,0,0) 1)).
+
+(* request(n), then look at the first n octets slice() shows (fewer when fewer are there) *)
+Definition look_A (pol : policy) (n : N) : A (list N) :=
+  bindA (requestA pol n) (fun _ r => (Ok (firstN n (sliceA r)), r)).
+Definition look_B (n : N) : M (list N) := tick ;;; fun s => (Ok (firstN n (visible s)), s).
+(* Integer::check_head as the code does it: request(2) == 0 -> error; slice.first(), slice.get(1) *)
+Definition int_check_head_A (pol : policy) : A unit :=
+  bindA (look_A pol 2) (fun l => match l with
+  | [] => cerrA | [_] => retA tt
+  | b0 :: b1 :: _ =>
+      if ((b0 =? 0) && (N.land b1 128 =? 0)) || ((b0 =? 255) && negb (N.land b1 128 =? 0))
+      then cerrA else retA tt end).
+(* Unsigned::check_head: Integer::check_head, then slice().first().unwrap() with NO further request *)
+Definition uns_check_head_A (pol : policy) : A unit :=
+  bindA (int_check_head_A pol) (fun _ =>
+  bindA (indexA 0) (fun b0 => if negb (N.land b0 128 =? 0) then cerrA else retA tt)).
+(* Primitive::with_slice_all: request(limit) < limit -> error; the closure sees slice()[..limit]; the source is
+   advanced over it only when the closure accepts *)
+Definition slice_then_A (pol : policy) (adv : list N -> bool) : A (list N) := fun r =>
+  match rlim r with
+  | None => (Panic, r)
+  | Some l =>
+      bindA (requestA pol l) (fun g =>
+      if g <? l then cerrA else
+      bindA (bytesA l) (fun c => if adv c then bindA (advanceA l) (fun _ => retA c) else retA c)) r
+  end.
+Definition slice_then_B (adv : list N -> bool) : M (list N) :=
+  c <- slice_all_lim ;; if adv c then advance (len c) ;;; ret c else ret c.
+
 (* ---- decoders as trees of access patterns ----
    Any decoder that touches its source only through the patterns above is such
    a tree (continuations are arbitrary Gallina functions of the octets read). *)
@@ -113,10 +170,16 @@ Inductive pat (T : Type) : Type :=
 | PTakeAll (k : list N -> pat T)
 | PPeek (i : N) (k : N -> pat T)
 | PSetLim (l : option N) (k : pat T)
-| PGetLim (k : option N -> pat T).
+| PGetLim (k : option N -> pat T)
+| PRes (x : res T)
+| PTagIf (e : N * N * N * N) (k : option bool -> pat T)
+| PExhausted (k : pat T)
+| PLook (n : N) (k : list N -> pat T)
+| PSliceThen (adv : list N -> bool) (k : list N -> pat T).
 Arguments PRet {T}. Arguments PErr {T}. Arguments PTakeU8 {T}. Arguments PTakeOpt {T}.
 Arguments PSkipN {T}. Arguments PTakeAll {T}. Arguments PPeek {T}. Arguments PSetLim {T}.
-Arguments PGetLim {T}.
+Arguments PGetLim {T}. Arguments PRes {T}. Arguments PTagIf {T}. Arguments PExhausted {T}.
+Arguments PLook {T}. Arguments PSliceThen {T}.
 
 Fixpoint runA {T} (pol : policy) (p : pat T) : A T :=
   match p with
@@ -129,6 +192,11 @@ Fixpoint runA {T} (pol : policy) (p : pat T) : A T :=
   | PPeek i k => bindA (peek_A pol i) (fun b => runA pol (k b))
   | PSetLim l k => bindA (set_limit_A l) (fun _ => runA pol k)
   | PGetLim k => bindA get_limit_A (fun l => runA pol (k l))
+  | PRes x => fun r => (x, r)
+  | PTagIf e k => bindA (tagif_A pol e) (fun o => runA pol (k o))
+  | PExhausted k => bindA (exhausted_A pol) (fun _ => runA pol k)
+  | PLook n k => bindA (look_A pol n) (fun l => runA pol (k l))
+  | PSliceThen adv k => bindA (slice_then_A pol adv) (fun c => runA pol (k c))
   end.
 
 Fixpoint runB {T} (p : pat T) : M T :=
@@ -142,6 +210,11 @@ Fixpoint runB {T} (p : pat T) : M T :=
   | PPeek i k => b <- peek_B i ;; runB (k b)
   | PSetLim l k => set_limit l ;;; runB k
   | PGetLim k => l <- get_lim ;; runB (k l)
+  | PRes x => fun s => (x, s)
+  | PTagIf e k => o <- tag_take_from_if e ;; runB (k o)
+  | PExhausted k => src_exhausted ;;; runB k
+  | PLook n k => l <- look_B n ;; runB (k l)
+  | PSliceThen adv k => c <- slice_then_B adv ;; runB (k c)
   end.
 
 (* Source::skip: advances over min(granted, n) *)
@@ -154,15 +227,7 @@ Definition skip_all_A (pol : policy) : A unit := fun r =>
 (* ---- scripts of raw operations, for the correspondence stream c07.grants ---- *)
 Inductive aop :=
 | ATakeU8 | ATakeOpt | ASkip (n : N) | ATakeAll | ASkipAll | ASetLim (l : option N)
-| ARequest (n : N) | ATag | AExhausted | ATagIf (e0 e1 e2 e3 : N).
-
-(* LimitedSource::exhausted: limit 0 / limit left / no limit: request(1) == 0 *)
-Definition exhausted_A (pol : policy) : A unit := fun r =>
-  match rlim r with
-  | Some 0 => (Ok tt, r)
-  | Some _ => (CErr, r)
-  | None => bindA (requestA pol 1) (fun g => if g <? 1 then retA tt else cerrA) r
-  end.
+| ARequest (n : N) | ATag | AExhausted | ATagIf (e0 e1 e2 e3 : N) | ALook (n : N).
 
 Definition tag_A (pol : policy) : A (option (N * N * N * N * bool)) := runA pol
   (PTakeOpt (fun ob => match ob with None => PRet None | Some b =>
@@ -176,27 +241,6 @@ Definition tag_A (pol : policy) : A (option (N * N * N * N * bool)) := runA pol
       PTakeU8 (fun d3 =>
       if N.land d3 128 =? 0 then PRet (Some (d0,d1,d2,d3,c)) else PErr)))
     else PRet (Some (d0,0,0,0,c)) end)).
-
-(* Tag::take_from_if as the code does it: request(1) == 0 -> absent; slice()[0]; for a high tag number
-   peek further octets (request(i+1) <= i -> error; slice()[i]; more than four octets -> error); compare with
-   the expected tag; advance over the identifier only on a match *)
-Definition tagif_A (pol : policy) (e : N * N * N * N) : A (option bool) :=
-  bindA (requestA pol 1) (fun g =>
-  if g <? 1 then retA None else
-  bindA (indexA 0) (fun b =>
-  let d0 := N.land b 223 in let c := negb (N.land b 32 =? 0) in
-  let fin (t : N * N * N * N) (n : N) : A (option bool) :=
-    let '(a0, a1, a2, a3) := t in let '(b0, b1, b2, b3) := e in
-    if (a0 =? b0) && (a1 =? b1) && (a2 =? b2) && (a3 =? b3)
-    then bindA (advanceA n) (fun _ => retA (Some c)) else retA None in
-  if N.land d0 31 =? 31 then
-    bindA (peek_A pol 1) (fun d1 =>
-    if N.land d1 128 =? 0 then fin (d0,d1,0,0) 2 else
-    bindA (peek_A pol 2) (fun d2 =>
-    if N.land d2 128 =? 0 then fin (d0,d1,d2,0) 3 else
-    bindA (peek_A pol 3) (fun d3 =>
-    if N.land d3 128 =? 0 then fin (d0,d1,d2,d3) 4 else cerrA)))
-  else fin (d0,0,0,0) 1)).
 
 Definition mapA {T U} (f : T -> U) (m : A T) : A U := bindA m (fun t => retA (f t)).
 Definition zlist (l : list N) : list Z := map Z.of_N l.
@@ -217,6 +261,7 @@ Definition run_aop (pol : policy) (o : aop) : A (list Z) :=
   | AExhausted => mapA (fun _ => [0%Z]) (exhausted_A pol)
   | ATagIf e0 e1 e2 e3 => mapA (fun o : option bool => match o with
                  | Some k => [1%Z; if k then 1%Z else 0%Z] | None => [0%Z] end) (tagif_A pol (e0, e1, e2, e3))
+  | ALook n => mapA (fun bs => Z.of_N (len bs) :: zlist bs) (look_A pol n)
   end.
 
 (* run until the first error; (code, log, final source) *)
@@ -255,5 +300,6 @@ Fixpoint parse_aops (fuel : nat) (l : list N) : list aop :=
   | 8 :: t => ATag :: parse_aops f t
   | 9 :: t => AExhausted :: parse_aops f t
   | 10 :: e0 :: e1 :: e2 :: e3 :: t => ATagIf e0 e1 e2 e3 :: parse_aops f t
+  | 11 :: n :: t => ALook n :: parse_aops f t
   | _ => []
   end end.
